@@ -173,6 +173,26 @@ CLAIMS['C16'].update(
 CLAIMS['C08'].update(
     note='the traces depend only on bls_x and literals; a data-dependent condition other than the identity tests makes pairs non-uniform and is reported as a violation')
 
+# ---- session 3, second half
+CLAIMS['C02'].update(
+    technique='static analysis: word-level algebraic value numbering of the portable C++ multi-precision layer (resolved AST, all five configurations: 64- and 32-bit words) and of the x86-64 / AArch64 assembly (integer-polynomial normal forms with carry identities, interval arguments for dropped carries, decided carry idioms, path facts for the correction tails); byte-lane analysis of byte I/O; constant relations; who-may-write rule for representations',
+    text='Decided for all operands: every portable C++ BigInt add / subtract / double / multiply / square / compare and FpBase add / subtract / multiply2 / reduce / montgomery_reduce instantiation (128..768 bits, 64- and 32-bit words) and every assembly routine computes its specification polynomial on every path, with the modulus correction applied exactly when the value reaches the modulus and a canonical result; byte I/O reverses bytes exactly; all constants; zero special cases; only the 12 decided primitives write a representation. Not decided: inversion / exponentiation / square-root / Legendre as values (they compose the decided primitives), ARMv6-M assembly.',
+    note='preconditions of the specifications (operands canonical, inv*p[0] = -1 mod 2^w, T < p*2^bits) are stated, not derived; assembly routines called from C++ are summarised by the specification proven for them')
+CLAIMS['C03'].update(
+    technique='static analysis: one specification polynomial per operation, proven by word-level algebraic value numbering for the portable C++ routines in every configuration (64-bit and 32-bit words) and for every x86-64 (baseline, BMI2/ADX) and AArch64 assembly routine; sibling cross-check of specialisation signatures and forwarding; dispatch pairing',
+    text='Decided: x86-64 baseline asm, x86-64 BMI2/ADX asm, AArch64 asm, portable C++ with 64-bit words and portable C++ with 32-bit words all compute the same specification (exact add/sub/double with returned carry, full product/square, modular add/sub/double, Montgomery reduction with canonical result) for all operands, hence agree bit for bit. Not decided: ARMv6-M assembly bodies (not assemblable in this image; their C++ side is checked). D10 found and fixed.',
+    note='trusted base: clang front end / integrated assembler + llvm-objdump, the instruction and C++ expression semantics in jpv/asmsem.py and jpv/cppword.py')
+CLAIMS['C06'].update(
+    technique='static analysis: call-graph reachability (who-may-call), carry dataflow of the recoding, edge-dominance of digit reads, extents, constant relations; concrete-control / symbolic-value execution of the set-up code of the interleaved multiplications in the discrete-log domain (table bases, recoded scalars, table contents)',
+    text='Decided: order-r-only multiplications are unreachable from code handling points outside the subgroup; recoding overflow repaired; digit reads guarded; extents; GLV / Frobenius constants; in G2::multiply_frobenius digit stream j is recoded from c[j] and table j holds odd multiples of [|x|^j]a on every set-up path, in G1::multiply_endomorphism both streams and the table are bound to (c0, c1, a), fill_table gives (2k+1)*base. Not decided: the recoding as a value (sum of digits = scalar), the digit loop, the GLV decomposition arithmetic.',
+    note='psi(P) = [x]P on G2 and the endomorphism eigenvalue are the assumed facts')
+CLAIMS['C09'].update(
+    technique='static path analysis of the decoders (must-pass obligations), sibling agreement of the sign predicate between encoder and decoder, byte-lane analysis of coordinate byte I/O, flag-constant relations',
+    text='Decided: every validating accepting path passes form, identity-padding, canonicality, curve and subgroup tests; the non-validating path performs the same state changes; the compressed encoder sets the sign flag by the same predicate (resolved comparison, operand roles, constant) the decoder uses to select the root; write/read_big_endian reverse bytes exactly; flag constants disjoint. Value round-trip as a whole is NOT decided (square root / curve arithmetic).')
+CLAIMS['C15'].update(
+    technique='static analysis: affine footprint analysis of marshal/unmarshal vs the length formulas, writer/reader field pairing, byte-lane analysis of the free-slot index encoding, finite-domain evaluation of first-byte predicates, edge-dominance rules for length guards, must-check rule for decode verdicts',
+    text='For all 22 marshal/unmarshal pairs: bytes touched tile exactly [0, marshalledLength); writer and reader agree field by field and codec by codec; the 4 index bytes carry exactly the 4 bytes of idx, big-endian, and are read back to the same lanes (for all 2^32 values); length discovery agrees with what unmarshal consumes and is guarded; every decode verdict propagates. Equality of group elements after a round trip is C09 + the point codec.')
+
 NA = {
 }
 
